@@ -30,7 +30,7 @@ def witness_search(tier, seed):
         for enc, text, ext in (("utf-8", "#TITLE:a;#ARTIST:x;", ".sm"), ("cp1252", "#TITLE:caf\xe9;#ARTIST:x;", ".sm"),
                                ("utf-8", "#TITLE:a;#NOTES:dance-single:d:Easy:1:0,0,0,0,0:0000;", ".sm"),
                                ("utf-8", "#VERSION:0.83;#TITLE:a;#NOTEDATA:;#STEPSTYPE:x;#NOTES:0000;", ".ssc")):
-            for out, bak in ((None, None), (None, "bak" + ext), ("out" + ext, "bak" + ext)):
+            for out, bak in ((None, None), (None, "bak" + ext), ("out" + ext, "bak" + ext), ("out" + ext, "in" + ext)):
                 for what in ("raise-KeyboardInterrupt", "raise-ValueError", "cancel", "unserializable", "unencodable", "chart-without-notes", "backup-unopenable", "output-unopenable", "unencodable-surrogate"):
                     cases.append((enc, text, ext, out, bak, what))
         for enc, text, ext, out, bak, what in cases:
@@ -82,6 +82,12 @@ def witness_search(tier, seed):
                 escaped = e
             inp_now = open(p, "rb").read()
             info = dict(text=text, encoding=enc, out=out, backup=bak, fault=what)
+            if bak == "in" + ext:
+                # the backup name is the input name (with another output name): refused before anything is written
+                if not isinstance(escaped, ValueError) or inp_now != raw or set(os.listdir(d)) != {"in" + ext}:
+                    return dict(input=info, detail=f"a backup name equal to the input name was not refused before anything was written: "
+                                                   f"{escaped!r}; directory now {sorted(os.listdir(d))}; input {'intact' if inp_now == raw else 'changed to ' + repr(inp_now[:40])}")
+                continue
             if what.startswith("raise-") or what == "cancel":
                 if what == "cancel" and escaped is not None:
                     return dict(input=info, detail=f"CancelMutation escaped as {escaped!r}")
